@@ -1,11 +1,11 @@
 SPECIFICATION Spec
 CONSTANTS
-  Scheds <- SchedsBig
-  Blocking = {2}
-  MaxNow = 7
-  MaxStep = 3
+  Scheds <- SchedsChain
+  Blocking = {1}
+  MaxNow = 4
+  MaxStep = 2
   MaxOps = 4
-  Chain = "none"
+  Chain = "delay"
   Variant = "ok"
 INVARIANTS Accepted ViewsAgree WaitGroupSane
 CHECK_DEADLOCK FALSE
